@@ -40,6 +40,7 @@ def snap_sa(sa):
         'rekey_at': sa.rekey_ike_sa_at, 'delete_at': sa.delete_ike_sa_at,
         'last_resp': sha(getattr(sa, 'last_sent_response_data', b'') or b''),
         'has_keys': sa.ike_sa_keyring is not None,
+        'my_addr': str(sa.my_addr), 'peer_addr': str(sa.peer_addr),
     }
 
 
